@@ -24,6 +24,13 @@ def handle (op : String) (args : List String) : Option String :=
     let padded := n + (bs - n % bs)
     if delta = 0 then some "-1"        -- capacity padded - 1: does not fit
     else some s!"0 {padded} marker=128 tailnz=0 dataok=1 unpad=0,{n}"
+  -- pad.huge: the same closed form for buffer lengths up to 2^40 (the harness reserves the capacity without backing it and opens only the final block)
+  | "pad.huge", [n, bs, _fill, delta] => do
+    let n ← parseNat? n; let bs ← parseNat? bs; let delta ← parseNat? delta
+    if bs = 0 ∨ n ≥ 2 ^ 40 ∨ bs > 2 ^ 22 then some badArgs else
+    let padded := n + (bs - n % bs)
+    if delta = 0 then some "-1"
+    else some s!"0 {padded} marker=128 tailnz=0 dataok=1 unpad=0,{n}"
   | "unpad", [buf, bs] => do
     let buf ← ofHex buf; let bs ← parseNat? bs
     if bs ≥ 2 ^ 64 then some badArgs else
